@@ -499,9 +499,11 @@ Example ex_dirty_pool_leaks :
 Proof. vm_compute. reflexivity. Qed.
 
 (** the helpers: the fault-site hypothesis is satisfiable at a row far inside a long argument array and at COMMIT *)
-Example ex_fault_site_row_2200 : fault_site (length (zrange 2500)) (stmt_fault 2200 e1062 StmtOnly) e1062.
+Definition row2200 : nat := Z.to_nat 2200.        (* unary literals in the thousands are slow to elaborate *)
+
+Example ex_fault_site_row_2200 : fault_site (length (zrange 2500)) (stmt_fault row2200 e1062 StmtOnly) e1062.
 Proof.
-  apply (AtStatement _ _ _ 2200%nat StmtOnly); [reflexivity | reflexivity | reflexivity |].
+  apply (AtStatement _ _ _ row2200 StmtOnly); [reflexivity | reflexivity | reflexivity |].
   apply Nat.ltb_lt. vm_compute. reflexivity.
 Qed.
 
@@ -510,12 +512,12 @@ Proof. apply (AtCommit _ _ _ true); [reflexivity | reflexivity | exact I | refle
 
 (** Database.execute_many over 2500 rows: duplicate key at row 2200 — nothing is left behind *)
 Example ex_execute_many_2500_duplicate_key :
-  run_many_Z 2500 [stmt_fault 2200 e1062 StmtOnly] [7] = (Some e1062, [(7, 1)], [(Some e1062, [(7, 1)])]).
+  run_many_Z 2500 [stmt_fault row2200 e1062 StmtOnly] [7] = (Some e1062, [(7, 1)], [(Some e1062, [(7, 1)])]).
 Proof. vm_compute. reflexivity. Qed.
 
 (** ... deadlock at row 2200, then a lost connection at COMMIT: retried as a whole, rows 0..2499 exactly once *)
 Example ex_execute_many_2500_deadlock_then_commit_loss :
-  run_many_Z 2500 [stmt_fault 2200 e1213 TxnRolledBack; commit_fault e2013 true] [7]
+  run_many_Z 2500 [stmt_fault row2200 e1213 TxnRolledBack; commit_fault e2013 true] [7]
   = (None, [(7, 1); (0, 2500)], [(Some e1213, [(7, 1)]); (Some e2013, [(7, 1)]); (None, [(7, 1); (0, 2500)])]).
 Proof. vm_compute. reflexivity. Qed.
 
